@@ -185,7 +185,8 @@ fn build_any(rng: &mut Rng, r: &Rose) -> (Tree, String) {
             return (st.tree, case);
         }
     }
-    match rng.below(3) {
+    match rng.below(4) {
+        3 => (build_bottom_up(r, &mut Rng::new(seed)), format!("real.build\tbottomup\t{}\t{seed}", r.canon())),
         0 => (build_api(r), format!("real.build\tapi\t{}\t0", r.canon())),
         1 => (build_api_bfs(r), format!("real.build\tbfs\t{}\t0", r.canon())),
         _ => (build_with_tombstones(r, &mut Rng::new(seed)), format!("real.build\ttomb\t{}\t{seed}", r.canon())),
@@ -573,6 +574,29 @@ fn pair_requests(a: &Rose, b: &Rose, rng: &mut Rng, q: &mut Q, rep: &mut Report,
                 let w2 = real_wrf(&x, &y);
                 if w2 != format!("ok {}", 2 * bw) {
                     rep.oracle("wrf-scale", "not-linear", &sig_case, &format!("{w} scaled by 2 gives {w2}"));
+                }
+                // ... and a common rescaling by a power of two FAR from 1 multiplies both exactly (scaling by a power of two is exact
+                // and sqrt is correctly rounded): magnitudes around 1e-21 / 1e-90 / 1e+60 must not change a single term
+                for e in [-70i32, -300, 200] {
+                    let f = 2f64.powi(e);
+                    let (mut x, mut y) = (fresh(a), fresh(b));
+                    x.rescale(f);
+                    y.rescale(f);
+                    rep.count("wrf_kf_at_extreme_magnitudes");
+                    let ctx = format!("{case}\n# both trees rescaled by 2^{e}\nsp\twrf");
+                    match x.weighted_robinson_foulds(&y) {
+                        Ok(v) if v == (bw as f64 / UNIT as f64) * f => {}
+                        other => rep.oracle("wrf-scale", "not-linear-at-extreme-magnitude", &ctx, &format!("{other:?} expected {:e}", (bw as f64 / UNIT as f64) * f)),
+                    }
+                    match x.khuner_felsenstein(&y) {
+                        Ok(v) if v == want * f => {}
+                        other => rep.oracle("kf-scale", "not-linear-at-extreme-magnitude", &ctx, &format!("{other:?} expected {:e}", want * f)),
+                    }
+                    if let Ok(c) = x.compare_topologies(&y) {
+                        if c.weighted_rf != (bw as f64 / UNIT as f64) * f || c.branch_score != want * f {
+                            rep.oracle("wrf-report", "not-linear-at-extreme-magnitude", &ctx, &format!("{c:?}"));
+                        }
+                    }
                 }
                 // zero against a reordering of itself
                 let ra = reorder(rng, a);
